@@ -92,6 +92,8 @@ def run(tier, seed, replay=None):
                        "interleavings with the same attacks on real bytes; TLC validates each execution and evaluates "
                        "ExitOnlyOwn, ReturnIntegrity, EntriesStable, DestroyOnlyFromNeighbour, UnknownCellsInert; "
                        "non-trivial = distinct executions containing an attack step or data of >= 2 circuits")
+    if replay and K.replay_file(ctx, PID, replay, NONTRIVIAL):
+        return ctx.finish()
     ctx.assumptions += ["symbolic AEAD / DH (Dolev-Yao); circuit ids and identifiers renamed by allocation order",
                         "the signature check of destroy messages itself is property C01"]
     bg = K.Background(["Onion_c05_q.cfg", "Onion_c05_g2.cfg"] + (["Onion_c05.cfg"] if tier == "thorough" else []),
